@@ -40,7 +40,7 @@ def check_case(case, ctx):
     what = f"{dsl.render(case['tree'])} (pattern {str(p)!r})"
     r, c, ie = case['repl'], case['count'], case['include_empty']
     nontrivial = False
-    for t in pat.subject_texts(case['tree'], case['tseed'], case.get('xt', ()))[:8]:
+    for t in pat.subject_texts(case['tree'], case['tseed'], case.get('xt', ()), big=case.get('big', 0))[:10]:
         ms = list(rx.finditer(t))
         spans = [m.span() for m in ms]
         # split_by_match
@@ -119,7 +119,8 @@ def strategy(spec, ctx):
         'tree': dsl.tree_strategy(feats, max_leaves=5),
         'tseed': st.integers(0, 2 ** 16),
         'repl': st.sampled_from(['', '-', '<>', 'é', 'ab', ' ', '$1', '\n']),
-        'count': st.one_of(st.integers(0, 5), st.integers(-3, 2)),
+        'big': st.sampled_from([0, 0, 0, 0, 70, 300, 3000]),
+        'count': st.one_of(st.integers(0, 5), st.integers(-3, 2), st.sampled_from([9, 10, 63, 64, 65, 100, 255, 256, 1000])),
         'include_empty': st.booleans(),
         'state': st.sampled_from(pat.STATES),
     })
